@@ -224,6 +224,23 @@ func checkRedact(c Case) error {
 		if again := urlutil.RedactUserinfo(r1); again.String() != r1.String() || again.User == nil || again.User.String() != mask {
 			return fmt.Errorf("RedactUserinfo of an already redacted URL gives %q, want %q", again.String(), r1.String())
 		}
+		// The same *url.URL value used again after its caller changed other
+		// fields in place (a long-lived upstream URL whose path is rewritten
+		// per request): the text must describe the URL as it is now.
+		mut := u1 // copy of the struct; &mut is one pointer used twice
+		ue3 := &url.Error{Op: "Get", URL: mut.String(), Err: inner}
+		urlutil.RedactUserinfoInURLError(&mut, ue3)
+		if mut.Opaque == "" {
+			mut.Path, mut.RawPath = mut.Path+"/changed-in-place", ""
+		} else {
+			mut.Opaque += "-changed"
+		}
+		mut.Fragment, mut.RawFragment = "later", ""
+		ue4 := &url.Error{Op: "Get", URL: mut.String(), Err: inner}
+		urlutil.RedactUserinfoInURLError(&mut, ue4)
+		if want4 := urlutil.RedactUserinfo(&mut).String(); ue4.URL != want4 {
+			return fmt.Errorf("RedactUserinfoInURLError called again with the same *url.URL after its path and fragment were changed in place: URL text is %q, want the redacted form of the URL as it is now, %q", ue4.URL, want4)
+		}
 		// An error value that is reused for a second URL.
 		urlutil.RedactUserinfoInURLError(&u2, ue2)
 		if u2.User != nil && ue2.URL != r2.String() {
